@@ -1277,22 +1277,22 @@ def dec2hp_v(dec):
 
 
 def hp2dec_v(hp):
-    # round the scaled value so that a product falling just below a digit
-    # boundary (e.g. 259.02 * 1000 = 259019.99999999997) stays in its field
-    scaled = abs(hp) * 1000
-    # the fields are validated at the resolution hp2dec reads them with (13
-    # decimals of the HP value below 512 degrees, 12 from there): seconds of
-    # 59.999999999 are valid although they round to 60 below
-    fine = scaled.round(9)
-    fine[abs(hp) < 512] = scaled[abs(hp) < 512].round(10)
-    degmin, second = divmod(fine, 10)
-    # second holds tens of seconds (S.sss): 6 or more is a seconds field of 60+
-    if (degmin % 100 >= 60).any() or (second >= 6).any():
+    # split off the whole degrees first: the fraction then carries the minute
+    # and second digits exactly (the difference is exact), and they can be read
+    # off as an integer at the resolution hp2dec reads them with - 13 decimals
+    # of the HP value below 512 degrees, 12 from there. A product like
+    # 259.02 * 1000 = 259019.99999999997 never has to be cut into fields
+    mag = abs(hp)
+    degree = mag // 1
+    places = 12 + (mag < 512)
+    digits = ((mag - degree) * 10.0 ** places).round()
+    # digits is MMSSsss...: two digits of minutes, the rest seconds
+    minute, second = divmod(digits, 10.0 ** (places - 2))
+    second = second / 10.0 ** (places - 4)
+    if (minute >= 60).any() or (second >= 60).any():
         raise ValueError('Invalid HP Notation: minutes or seconds of 60 or '
                          'more')
-    degmin, second = divmod(scaled.round(9), 10)
-    degree, minute = divmod(degmin, 100)
-    dec = degree + (minute / 60) + (second / 360)
+    dec = degree + (minute / 60) + (second / 3600)
     dec[hp <= 0] = -dec[hp <= 0]
     return dec
 
